@@ -155,9 +155,13 @@ Fixpoint evict_loop (lim w : N) (fts : list fee_txn) : list fee_txn :=
   | f :: r => if lim <=? w then evict_loop lim (w - ft_weight f) r else fts
   end.
 
-Definition keep_by (kept : list fee_txn) (k : bool) (ts : list atx) : list atx :=
-  omap (λ p : nat * atx, if bool_decide (Exists (λ f, ft_index f = p.1 ∧ ft_v2 f = k) kept) then Some p.2 else None)
-       (imap (λ i t, (i, t)) ts).
+Fixpoint keep_from (kept : list fee_txn) (k : bool) (s : nat) (ts : list atx) : list atx :=
+  match ts with
+  | [] => []
+  | t :: r => if bool_decide (Exists (λ f, ft_index f = s ∧ ft_v2 f = k) kept)
+              then t :: keep_from kept k (S s) r else keep_from kept k (S s) r
+  end.
+Definition keep_by (kept : list fee_txn) (k : bool) (ts : list atx) : list atx := keep_from kept k 0 ts.
 
 (** revalidatePool (manager.go:640-741); [mw] is State.MaxBlockWeight *)
 Definition revalidate (L : ledger) (mw : N) (p : pool) : pool :=
